@@ -41,6 +41,18 @@ func toJ(n enc.Name) []jc {
 	}
 	return r
 }
+func sameShape(a, b []jc) bool {
+	if len(a) != len(b) || len(a) == 0 {
+		return false
+	}
+	for i := range a {
+		if a[i].T != b[i].T || len(a[i].V) != len(b[i].V) {
+			return false
+		}
+	}
+	return true
+}
+
 func shortestNat(v []byte) bool {
 	x := uint64(0)
 	for _, b := range v {
@@ -82,8 +94,12 @@ func TestNames(t *testing.T) {
 			ph := n.PrefixHash()
 			ok := len(ph) == len(n)+1
 			for i := 0; ok && i <= len(n); i++ {
+				for _, c := range n { // component hashes in between must not disturb name hashes
+					c.Hash()
+				}
 				ok = ph[i] == n[:i].Hash()
 			}
+			ok = ok && fmt.Sprint(n.PrefixHash()) == fmt.Sprint(ph)
 			ev["prefixHashOk"] = ok
 			back, err := enc.NameFromBytes(n.Bytes())
 			if err != nil {
@@ -120,6 +136,14 @@ func TestNames(t *testing.T) {
 		case 1: // adversarially close: neighbours in the enumeration differ in one byte / length / type
 			i := rng.Intn(len(names) - 1)
 			ja, jb = names[i], names[i+1]
+		case 3: // same shape (component count, types, value lengths), different bytes
+			for tries := 0; tries < 200; tries++ {
+				jc2 := names[rng.Intn(len(names))]
+				if sameShape(ja, jc2) {
+					jb = jc2
+					break
+				}
+			}
 		case 2: // prefix-related
 			if len(ja) > 0 {
 				jb = ja[:rng.Intn(len(ja))]
@@ -135,7 +159,12 @@ func TestNames(t *testing.T) {
 				}
 			}()
 			row["cmp"], row["cmpRev"], row["eq"] = a.Compare(b), b.Compare(a), a.Equal(b)
-			row["encEq"], row["prefix"], row["hashEq"] = bytes.Equal(a.Bytes(), b.Bytes()), a.IsPrefix(b), a.Hash() == b.Hash()
+			ha := a.Hash()
+			for _, c := range b {
+				c.Hash()
+			}
+			hb := b.Hash()
+			row["encEq"], row["prefix"], row["hashEq"] = bytes.Equal(a.Bytes(), b.Bytes()), a.IsPrefix(b), ha == hb
 		}()
 		w.Emit(row)
 		total++
